@@ -212,6 +212,13 @@ def r09_2(ctx):
     ctx.check("non-constant condition is not folded", [o.value for o in outs] == [None], "None", str([lab(o.value) for o in outs]), fn_where(idx, fi))
 
 
+@rule("R09.7", "C09", "the run-time twin of the division folders is the C operation: the folders compute signed quotients and remainders for signed operands, so must the emitted opcode", min_instances=4)
+def r09_7(ctx):
+    from .c05 import signed_division_opcode
+
+    signed_division_opcode(ctx)
+
+
 @rule("R09.3", "C09", "removal safety: operands that can have other users (de-duplicated by name) are only removed under a use-count guard", min_instances=4)
 def r09_3(ctx):
     idx = get_index(ctx.env)
